@@ -12,7 +12,10 @@ EVIDENCE = os.path.join(VERIF, "evidence")
 sys.path.insert(0, os.path.join(VERIF, "harness"))
 
 ALLOWED_AXIOMS = {"propext", "Quot.sound", "Classical.choice"}
-FORBIDDEN = re.compile(r"\bsorry\b|\badmit\b|^axiom |native_decide|bv_decide|implemented_by|\bunsafe |maxHeartbeats 0", re.M)
+FORBIDDEN = re.compile(r"\bsorry\b|\badmit\b|^\s*(?:@\[[^\]]*\]\s*)?(?:private\s+|protected\s+|noncomputable\s+)*axiom\s|native_decide|bv_decide|implemented_by|\bunsafe |maxHeartbeats 0|@\[\s*extern|@\[\s*csimp|^\s*(?:private\s+|protected\s+)?opaque\s", re.M)
+# in the library (everything a theorem can mention) `partial def` is forbidden too; the Driver (never used in a proof)
+# may use `partial def` for its printers and parsers
+FORBIDDEN_LIB = re.compile(r"\bpartial\s+def\b")
 
 TRUSTED_BASE = [
     "Lean 4.33 kernel; axioms allowed: propext, Quot.sound, Classical.choice (audited with #print axioms on every run)",
@@ -40,7 +43,7 @@ def strip_comments(src):
     return src
 
 
-def lean_obligations(pid):
+def lean_obligations(pid, tier="quick"):
     """Builds the property's module, audits axioms of every listed theorem.
     Returns dict(obligations, discharged, failures=[...], checker_cmd, wall_s)."""
     t0 = time.time()
@@ -54,13 +57,24 @@ def lean_obligations(pid):
     if not build_ok:
         failures.append({"kind": "lean-build", "detail": (p.stdout + p.stderr)[-3000:]})
     # forbidden constructs in every file of the library
-    for root, _, files in os.walk(os.path.join(LEAN, "PestTyped")):
-        for f in files:
-            if f.endswith(".lean"):
-                src = strip_comments(open(os.path.join(root, f)).read())
-                m = FORBIDDEN.search(src)
-                if m:
-                    failures.append({"kind": "forbidden-construct", "detail": f"{f}: {m.group(0)!r}"})
+    for sub in ("PestTyped", "Driver"):
+        for root, _, files in os.walk(os.path.join(LEAN, sub)):
+            for f in files:
+                if f.endswith(".lean"):
+                    src = strip_comments(open(os.path.join(root, f)).read())
+                    m = FORBIDDEN.search(src) or (sub == "PestTyped" and FORBIDDEN_LIB.search(src))
+                    if m:
+                        failures.append({"kind": "forbidden-construct", "detail": f"{sub}/{f}: {m.group(0).strip()!r}"})
+    # statements are pinned: a weakened or vanished obligation, or a removed non-vacuity example, is a failure
+    try:
+        sys.path.insert(0, VERIF)
+        import tools_pin_statements as pins
+        for kind, p_, detail in pins.diff(pid):
+            failures.append({"kind": kind, "theorem": detail, "detail": "differs from the committed props_pins.json (tools_pin_statements.py --repin after review)"})
+        unpinned = pins.unpinned(pid)
+    except Exception as e:
+        failures.append({"kind": "pins", "detail": str(e)[-500:]})
+        unpinned = []
     discharged = 0
     axioms_seen = {}
     if build_ok:
@@ -90,11 +104,22 @@ def lean_obligations(pid):
                     discharged += 1
             else:
                 failures.append({"kind": "missing-theorem", "theorem": th, "detail": out[-800:]})
+    # thorough tier: the compiled modules are re-checked by Lean's independent checker
+    rechecked = None
+    if build_ok and tier == "thorough":
+        rechecked = {}
+        for mod in modules:
+            q = sh(["lake", "env", "leanchecker", mod], cwd=LEAN)
+            rechecked[mod] = q.returncode == 0
+            if q.returncode != 0:
+                failures.append({"kind": "leanchecker", "theorem": mod, "detail": (q.stdout + q.stderr)[-1500:]})
     return {
+        "leanchecker": rechecked,
         "obligations": len(theorems),
         "discharged": discharged,
         "failures": failures,
         "axioms": axioms_seen,
+        "unpinned_theorems": unpinned,
         "checker_cmd": f"cd /verif/lean && {' '.join(cmd)} && lake env lean ../build/audit/{pid}.lean   # #print axioms of every obligation",
         "wall_s": time.time() - t0,
     }
@@ -171,6 +196,8 @@ def write_evidence(pid, tier, seed, lean, coverage_extra, wall_s, violations, as
         "checker_cmd": lean["checker_cmd"],
         "trusted_base": TRUSTED_BASE,
         "axioms_per_theorem": lean["axioms"],
+        "leanchecker": lean.get("leanchecker"),
+        "statement_pins": {"file": "props_pins.json", "unpinned_theorems": lean.get("unpinned_theorems", [])},
     }
     cov.update(coverage_extra)
     ev = {
